@@ -94,7 +94,7 @@ def run_death(wk, deploy, sig, workers=2):
         zombies = [p for p in kids if rp.proc_state(p) == "Z"]
         return {"scenario": "death:" + deploy, "workers": workers, "window_ms": 3000,
                 "ev": [{"e": "death", "master_alive": mstate not in (None, "Z"), "live": len(live), "zombies": len(zombies)}]}, \
-            {"wk": wk, "scenario": "worker killed by signal %d, deployment %s" % (sig, deploy), "status": None, "forks": None,
+            {"wk": wk, "scenario": "death:%s,sig=%d" % (deploy, sig), "status": None, "forks": None,
              "log": s.errlog()[-600:]}
     finally:
         s.cleanup()
